@@ -2,6 +2,6 @@
 From Coq Require Import Extraction ExtrOcamlBasic.
 From Tele Require Import Lib.Bytes Lib.Calendar Model.Cli.
 Extraction Language OCaml.
-Extraction "cli_model.ml" cli_run cli_run_at cli_run_nodir cli_env_output_nodir cli_set_mode_at utc_day local_day cli_run_all cli_set_mode cli_mode_parse cli_read_mode cli_env_output
+Extraction "cli_model.ml" cli_run cli_run_at cli_run_env cli_run_nodir cli_env_output_nodir cli_set_mode_at utc_day local_day cli_run_all cli_set_mode cli_mode_parse cli_read_mode cli_env_output
   date_or_zero dir_diff_ok mode_cmd_ok clean_ok others_same tree_eqb mode_is_dir mode_str ents
   has_prefix beq fmt_date.
